@@ -359,4 +359,325 @@ theorem flatMap_nil_mem {α : Type} {bs : List Batch} {sel : Batch → List α} 
   have := List.flatMap_eq_nil_iff.mp h
   exact this b hb
 
+/-- every sample a series holds: in-order chunk(s), OOO head chunk, flushed OOO chunks -/
+def Series.all (s : Series) : List Sample := s.inorder ++ (s.oooHead.getD []) ++ s.oooMmapped.flatten
+
+theorem oooInsert_mem_sub {l l' : List Sample} {x y : Sample} (h : oooInsert l x = some l') (hy : y ∈ l') :
+    y = x ∨ y ∈ l := by
+  induction l generalizing l' with
+  | nil => simp [oooInsert] at h; subst h; simpa using hy
+  | cons a rest ih =>
+    unfold oooInsert at h
+    by_cases h1 : x.t < a.t
+    · simp [h1] at h; subst h; simpa using hy
+    · by_cases h2 : x.t = a.t
+      · simp [h2] at h
+      · simp [h1, h2] at h
+        obtain ⟨r, hr, rfl⟩ := h
+        rcases List.mem_cons.mp hy with rfl | hy
+        · exact Or.inr List.mem_cons_self
+        · rcases ih hr hy with e | e
+          · exact Or.inl e
+          · exact Or.inr (List.mem_cons_of_mem _ e)
+
+theorem insertOOO_mem (s : Series) (cap : Nat) (x y : Sample) (hy : y ∈ (s.insertOOO cap x).1.all) :
+    y = x ∨ y ∈ s.all := by
+  unfold Series.insertOOO at hy
+  cases ho : s.oooHead with
+  | none =>
+    simp only [ho] at hy
+    simp [oooInsert, Series.all, ho] at hy ⊢
+    rcases hy with h | h | h
+    · exact Or.inr (Or.inl h)
+    · exact Or.inl h
+    · exact Or.inr (Or.inr h)
+  | some c =>
+    simp only [ho] at hy
+    by_cases hc : c.length = cap
+    · simp only [hc, if_true] at hy
+      simp [oooInsert, Series.all, ho] at hy ⊢
+      rcases hy with h | h | h | h
+      · exact Or.inr (Or.inl h)
+      · exact Or.inl h
+      · exact Or.inr (Or.inr (Or.inr h))
+      · exact Or.inr (Or.inr (Or.inl h))
+    · simp only [hc, if_false] at hy
+      cases hi : oooInsert c x with
+      | none =>
+        simp [hi, Series.all, ho] at hy ⊢
+        exact Or.inr hy
+      | some c' =>
+        simp [hi, Series.all, ho] at hy ⊢
+        rcases hy with h | h | h
+        · simp [h]
+        · rcases oooInsert_mem_sub hi h with e | e <;> simp [e]
+        · simp [h]
+
+theorem appendInOrder_mem (s : Series) (x y : Sample) (hy : y ∈ (s.appendInOrder x).1.all) :
+    y = x ∨ y ∈ s.all := by
+  unfold Series.appendInOrder at hy
+  cases hi : s.inorder with
+  | nil =>
+    simp [hi, Series.all] at hy ⊢
+    rcases hy with h | h | h <;> simp [h]
+  | cons a rest =>
+    simp only [hi] at hy
+    by_cases hc : a.t ≥ x.t
+    · simp only [hc, if_true] at hy; exact Or.inr hy
+    · simp only [hc, if_false] at hy
+      simp [Series.all, hi] at hy ⊢
+      rcases hy with h | h | h | h | h <;> simp [h]
+
+theorem commitOne_mem (w : Window) (cap : Nat) (s : Series) (x y : Sample)
+    (hy : y ∈ (commitOne w cap s x).1.all) : y = x ∨ y ∈ s.all := by
+  unfold commitOne at hy
+  cases ha : appendable x.kind x.t x.v s.view w with
+  | error e => simp [ha] at hy; exact Or.inr hy
+  | ok ad =>
+    cases ad with
+    | ooo => simp [ha] at hy; exact insertOOO_mem _ _ _ _ hy
+    | inOrder => simp [ha] at hy; exact appendInOrder_mem _ _ _ hy
+
+theorem seqSeries_mem (w : Window) (cap : Nat) (s : Series) (xs : List Sample) (y : Sample)
+    (hy : y ∈ (seqSeries w cap s xs).all) : y ∈ xs ∨ y ∈ s.all := by
+  induction xs generalizing s with
+  | nil => exact Or.inr hy
+  | cons x rest ih =>
+    rcases ih _ hy with h | h
+    · exact Or.inl (List.mem_cons_of_mem _ h)
+    · rcases commitOne_mem _ _ _ _ _ h with e | e
+      · exact Or.inl (e ▸ List.mem_cons_self)
+      · exact Or.inr e
+
+theorem commitList_mem (w : Window) (cap : Nat) (xs : List (String × Sample)) (acc : CommitAcc) (n : String)
+    (y : Sample) (hy : y ∈ ((commitList w cap xs acc).store.get n).all) :
+    (n, y) ∈ xs ∨ y ∈ (acc.store.get n).all := by
+  rw [commitList_get] at hy
+  rcases seqSeries_mem _ _ _ _ _ hy with h | h
+  · left
+    simp [samplesFor] at h
+    exact h
+  · exact Or.inr h
+
+/-- the histogram / float-histogram staleness marker a float staleness marker may be converted into -/
+def lateConv (x : Sample) (k : Kind) : Sample := { x with kind := k, v := 0 }
+
+theorem commitFloats_mem (w : Window) (cap : Nat) (fs : List (String × Sample)) (acc : CommitAcc)
+    (hs fhs : List (String × Sample)) :
+    let r := commitFloats w cap fs acc hs fhs
+    (∀ n y, y ∈ (r.1.store.get n).all → (n, y) ∈ fs ∨ y ∈ (acc.store.get n).all) ∧
+    (∀ p ∈ r.2.1, p ∈ hs ∨ ∃ x, (p.1, x) ∈ fs ∧ isStale .f x.v = true ∧ p.2 = lateConv x .h) ∧
+    (∀ p ∈ r.2.2, p ∈ fhs ∨ ∃ x, (p.1, x) ∈ fs ∧ isStale .f x.v = true ∧ p.2 = lateConv x .fh) := by
+  induction fs generalizing acc hs fhs with
+  | nil => simp [commitFloats]
+  | cons q rest ih =>
+    obtain ⟨m, x⟩ := q
+    have step : ∀ (acc' : CommitAcc), acc' = acc.apply w cap m x →
+        ∀ n y, y ∈ (acc'.store.get n).all → (n, y) = (m, x) ∨ y ∈ (acc.store.get n).all := by
+      intro acc' e n y hy
+      subst e
+      by_cases hn : n = m
+      · subst hn
+        rw [CommitAcc.apply_get_same] at hy
+        rcases commitOne_mem _ _ _ _ _ hy with e | e
+        · exact Or.inl (by rw [e])
+        · exact Or.inr e
+      · rw [CommitAcc.apply_get_other _ _ _ _ _ _ hn] at hy
+        exact Or.inr hy
+    have plain : ∀ r, r = commitFloats w cap rest (acc.apply w cap m x) hs fhs →
+        (∀ n y, y ∈ (r.1.store.get n).all → (n, y) ∈ (m, x) :: rest ∨ y ∈ (acc.store.get n).all) ∧
+        (∀ p ∈ r.2.1, p ∈ hs ∨ ∃ x', (p.1, x') ∈ (m, x) :: rest ∧ isStale .f x'.v = true ∧ p.2 = lateConv x' .h) ∧
+        (∀ p ∈ r.2.2, p ∈ fhs ∨ ∃ x', (p.1, x') ∈ (m, x) :: rest ∧ isStale .f x'.v = true ∧ p.2 = lateConv x' .fh) := by
+      intro r hr
+      obtain ⟨i1, i2, i3⟩ := ih (acc.apply w cap m x) hs fhs
+      subst hr
+      refine ⟨?_, ?_, ?_⟩
+      · intro n y hy
+        rcases i1 n y hy with h | h
+        · exact Or.inl (List.mem_cons_of_mem _ h)
+        · rcases step _ rfl n y h with e | e
+          · exact Or.inl (e ▸ List.mem_cons_self)
+          · exact Or.inr e
+      · intro p hp
+        rcases i2 p hp with h | ⟨x', h1, h2, h3⟩
+        · exact Or.inl h
+        · exact Or.inr ⟨x', List.mem_cons_of_mem _ h1, h2, h3⟩
+      · intro p hp
+        rcases i3 p hp with h | ⟨x', h1, h2, h3⟩
+        · exact Or.inl h
+        · exact Or.inr ⟨x', List.mem_cons_of_mem _ h1, h2, h3⟩
+    intro r
+    show _ ∧ _ ∧ _
+    have hr : r = commitFloats w cap ((m, x) :: rest) acc hs fhs := rfl
+    unfold commitFloats at hr
+    by_cases hst : isStale .f x.v = true
+    · simp only [hst, if_true] at hr
+      by_cases c1 : (acc.store.get m).view.hasHead = true ∧ (acc.store.get m).view.lastKind = Kind.h
+      · simp only [c1, and_self, if_true] at hr
+        obtain ⟨i1, i2, i3⟩ := ih acc (hs ++ [(m, { x with kind := .h, v := 0 })]) fhs
+        rw [hr]
+        refine ⟨?_, ?_, ?_⟩
+        · intro n y hy
+          rcases i1 n y hy with h | h
+          · exact Or.inl (List.mem_cons_of_mem _ h)
+          · exact Or.inr h
+        · intro p hp
+          rcases i2 p hp with h | ⟨x', h1, h2, h3⟩
+          · rcases List.mem_append.mp h with h | h
+            · exact Or.inl h
+            · simp at h; subst h
+              exact Or.inr ⟨x, List.mem_cons_self, hst, rfl⟩
+          · exact Or.inr ⟨x', List.mem_cons_of_mem _ h1, h2, h3⟩
+        · intro p hp
+          rcases i3 p hp with h | ⟨x', h1, h2, h3⟩
+          · exact Or.inl h
+          · exact Or.inr ⟨x', List.mem_cons_of_mem _ h1, h2, h3⟩
+      · simp only [c1, if_false] at hr
+        by_cases c2 : (acc.store.get m).view.hasHead = true ∧ (acc.store.get m).view.lastKind = Kind.fh
+        · simp only [c2, and_self, if_true] at hr
+          obtain ⟨i1, i2, i3⟩ := ih acc hs (fhs ++ [(m, { x with kind := .fh, v := 0 })])
+          rw [hr]
+          refine ⟨?_, ?_, ?_⟩
+          · intro n y hy
+            rcases i1 n y hy with h | h
+            · exact Or.inl (List.mem_cons_of_mem _ h)
+            · exact Or.inr h
+          · intro p hp
+            rcases i2 p hp with h | ⟨x', h1, h2, h3⟩
+            · exact Or.inl h
+            · exact Or.inr ⟨x', List.mem_cons_of_mem _ h1, h2, h3⟩
+          · intro p hp
+            rcases i3 p hp with h | ⟨x', h1, h2, h3⟩
+            · rcases List.mem_append.mp h with h | h
+              · exact Or.inl h
+              · simp at h; subst h
+                exact Or.inr ⟨x, List.mem_cons_self, hst, rfl⟩
+            · exact Or.inr ⟨x', List.mem_cons_of_mem _ h1, h2, h3⟩
+        · simp only [c2, if_false] at hr
+          exact plain r hr
+    · simp only [hst, Bool.false_eq_true, if_false] at hr
+      exact plain r hr
+
+/-- `(n, y)` is a sample handed to `Commit` in batch `b`, or the staleness-marker conversion of one -/
+def Batch.offers (b : Batch) (n : String) (y : Sample) : Prop :=
+  (n, y) ∈ b.floats ∨ (n, y) ∈ b.hists ∨ (n, y) ∈ b.fhists ∨
+  ∃ x, (n, x) ∈ b.floats ∧ isStale .f x.v = true ∧ (y = lateConv x .h ∨ y = lateConv x .fh)
+
+theorem commitBatch_mem (w : Window) (cap : Nat) (acc : CommitAcc) (b : Batch) (n : String) (y : Sample)
+    (hy : y ∈ ((commitBatch w cap acc b).store.get n).all) : b.offers n y ∨ y ∈ (acc.store.get n).all := by
+  unfold commitBatch at hy
+  have hm := commitFloats_mem w cap b.floats acc b.hists b.fhists
+  cases hr : commitFloats w cap b.floats acc b.hists b.fhists with
+  | mk acc1 rest =>
+    obtain ⟨hs', fhs'⟩ := rest
+    simp only [hr] at hy hm
+    obtain ⟨m1, m2, m3⟩ := hm
+    rcases commitList_mem _ _ _ _ _ _ hy with h | h
+    · rcases m3 _ h with h | ⟨x, h1, h2, h3⟩
+      · exact Or.inl (Or.inr (Or.inr (Or.inl h)))
+      · exact Or.inl (Or.inr (Or.inr (Or.inr ⟨x, h1, h2, Or.inr h3⟩)))
+    · rcases commitList_mem _ _ _ _ _ _ h with h | h
+      · rcases m2 _ h with h | ⟨x, h1, h2, h3⟩
+        · exact Or.inl (Or.inr (Or.inl h))
+        · exact Or.inl (Or.inr (Or.inr (Or.inr ⟨x, h1, h2, Or.inl h3⟩)))
+      · rcases m1 n y h with h | h
+        · exact Or.inl (Or.inl h)
+        · exact Or.inr h
+
+theorem commitBatches_mem (w : Window) (cap : Nat) (bs : List Batch) (acc : CommitAcc) (n : String) (y : Sample)
+    (hy : y ∈ ((commitBatches w cap bs acc).store.get n).all) :
+    (∃ b ∈ bs, b.offers n y) ∨ y ∈ (acc.store.get n).all := by
+  induction bs generalizing acc with
+  | nil => exact Or.inr hy
+  | cons b rest ih =>
+    unfold commitBatches at hy
+    rcases ih _ hy with ⟨b', hb', ho⟩ | h
+    · exact Or.inl ⟨b', List.mem_cons_of_mem _ hb', ho⟩
+    · rcases commitBatch_mem _ _ _ _ _ _ h with h | h
+      · exact Or.inl ⟨b, List.mem_cons_self, h⟩
+      · exact Or.inr h
+
+/-! ### Append: a rejected sample leaves the appender untouched -/
+
+theorem rejStr_ne_ok (e : Reject) : rejStr e ≠ "ok" := by cases e <;> decide
+
+theorem append_rejected (a : Appender) (st : Store) (n : String) (x : Sample)
+    (h : (a.append st n x).2.2 ≠ "ok") : (a.append st n x).1 = a := by
+  unfold Appender.append at h ⊢
+  by_cases c : a.w.oooWin = 0 ∧ x.t < a.w.minValid
+  · simp [c]
+  · simp only [c, if_false] at h ⊢
+    split at h <;> split <;> simp_all
+
+theorem append_store_all (a : Appender) (st : Store) (n : String) (x : Sample) (m : String) :
+    ((a.append st n x).2.1.get m).all = (st.get m).all := by
+  have key : ∀ st' : Store, (st' = match st.find? (·.1 = n) with | some _ => st | none => st ++ [(n, {})]) →
+      (st'.get m).all = (st.get m).all := by
+    intro st' e
+    subst e
+    cases hf : st.find? (·.1 = n) with
+    | some _ => rfl
+    | none =>
+      simp only
+      have : ∀ (l : Store), l.find? (·.1 = n) = none → ((l ++ [(n, ({} : Series))]).get m).all = (l.get m).all := by
+        intro l
+        induction l with
+        | nil => intro _; by_cases e : n = m <;> simp [Store.get, e, Series.all]
+        | cons p rest ih =>
+          intro hl
+          obtain ⟨k, s⟩ := p
+          simp [List.find?] at hl
+          by_cases e : k = m
+          · simp [Store.get, e]
+          · simp [Store.get, e]
+            apply ih
+            by_cases e2 : k = n
+            · simp [e2] at hl
+            · simpa [e2] using hl
+      exact this st hf
+  unfold Appender.append
+  by_cases c : a.w.oooWin = 0 ∧ x.t < a.w.minValid
+  · simp [c]
+  · simp only [c, if_false]
+    split <;> exact key _ rfl
+
+
+theorem materialise_store (h : Head) (a : Appender) (t : Int) : (materialise h a t).1.store = h.store := by
+  unfold materialise
+  by_cases c : a.live = true
+  · simp [c]
+  · simp only [c]
+    by_cases c2 : h.initialized = true <;> simp [c2]
+
+theorem only_commit_stores_aux (s : State) (hc : s.cfg = true) (tk : List String) (hne : tk ≠ ["commit"])
+    (m : String) : ((stepT s tk).1.head.store.get m).all = (s.head.store.get m).all := by
+  unfold stepT
+  split
+  · -- cfg
+    simp only [hc]
+  · simp only [hc, Bool.not_true, Bool.false_eq_true, if_false]
+    split
+    · split
+      · split <;> rfl
+      · rfl
+    · split <;> rfl
+    · split
+      · rfl
+      · split <;> rfl
+    · split
+      · rfl
+      · split <;> rfl
+    · split
+      · rfl
+      · split
+        · rfl
+        · split
+          · rfl
+          · simp only
+            rw [append_store_all, materialise_store]
+    · exact absurd rfl hne
+    · split <;> rfl
+    · rfl
+    · rfl
+
 end Prom.Admit
